@@ -115,7 +115,10 @@ def gen_cases(ctx, n):
     cases, ops = [], {}
     while len(cases) < n:
         r0 = rng.random()
-        if r0 < 0.12:
+        if r0 > 0.90:
+            ds, q = L.gen_scanfree_graphs(rng)
+            ops["scanfree_graph_family"] = ops.get("scanfree_graph_family", 0) + 1
+        elif r0 < 0.12:
             ds, q = gen_wide(rng)
             ops["wide"] = ops.get("wide", 0) + 1
         elif r0 < 0.22:
@@ -163,16 +166,18 @@ def evaluate(ctx, binpath, cases, stream, threads, coq=True, known_seen=None):
     if coq:
         exprs = []
         for c, im in zip(cases, base):
-            qq, ds = L.cquery(c["q"]), L.cdataset(c["ds"])
+            qq = L.cquery(c["q"])
+            ds = L.cdataset(c["ds"]) if not c.get("big") else None
+            spec_expr = ("spec_pattern_run %s %s" % (ds, qq)) if not c.get("big") else "(@nil mu)"
             try:
                 lg = L.jlop(im["logical"])
                 c["vkinds"] = [k for k in c["kinds"] if isinstance(im["plans"][k], list)]
                 plans = [L.jpop(im["plans"][k]) for k in c["vkinds"]]
-                exprs.append("(Some (lop_eqb (lower_query (q_sel %s)) %s, %s), spec_pattern_run %s %s)" % (
-                    qq, lg, L.clist("implements_run %s %s" % (qq, p) for p in plans), ds, qq))
+                exprs.append("(Some (lop_eqb (lower_query (q_sel %s)) %s, %s), %s)" % (
+                    qq, lg, L.clist("implements_run %s %s" % (qq, p) for p in plans), spec_expr))
             except (KeyError, TypeError, L.Unsupported) as ex:
                 c["model"] = "no plan to validate: %s" % (ex,)
-                exprs.append("(@None (bool * list bool), spec_pattern_run %s %s)" % (ds, qq))
+                exprs.append("(@None (bool * list bool), %s)" % spec_expr)
         ctx.log("%s: implementation done (%d thread-pool sizes), validating %d cases in Coq" % (stream, len(threads), len(exprs)))
         coqv = C1.run_model_retry(ctx, exprs, REQ + ["KV.Sparql.Lowering", "KV.Sparql.PlanEquiv"])
     st = {"cases": len(cases), "executions": 0, "rewritten_join_nodes": 0, "plans_validated": 0, "plan_dependent_known": 0,
@@ -199,7 +204,7 @@ def evaluate(ctx, binpath, cases, stream, threads, coq=True, known_seen=None):
                 ctx.broken("correspondence", stream, "Coq evaluation failed: %s" % (cv[1],), {"query": c["query"]})
                 continue
             opt, cs_rows = cv
-            csols = L.from_coq_mus(cs_rows)
+            csols = L.from_coq_mus(cs_rows) if not c.get("big") else spec_sols     # big cases: Python transliteration only
             if not L.mus_equal(csols, spec_sols):
                 ctx.broken("correspondence", stream + ":python-transliteration", "the Python transliteration of the Spec disagrees with coq/Sparql/Algebra.v (pattern solutions)",
                            dict(case_out, coq=csols[:20], python=spec_sols[:20]))
@@ -371,6 +376,18 @@ def run(ctx):
     for c in cases[:2]:
         ctx.sample({"query": c["query"], "dataset": c["ds"], "solutions": len(c["sols"])})
     threads = [1, 2, 4, 16]
+    # wide joins: a bind-join left input of a PRIME number of rows, at least 64 per worker of the 2 / 4 / 16-thread pool
+    # (130..1100 rows), so that the parallel bind join splits it unevenly; the Spec side of these big cases is the Python
+    # transliteration only (cross-checked against the Coq Spec on every other case)
+    wide = []
+    for t in (2, 4, 16):
+        for _ in range(6 if ctx.thorough else 2):
+            ds, q, nrows = L.gen_prime_wide(ctx.rng, t)
+            before, update = split_ds(ctx.rng, ds)
+            wide.append({"ds": ds, "ds_before": before, "ds_update": update, "q": q, "query": L.print_query(q, ctx.rng, True), "big": True,
+                         "sols": pattern_solutions(ds, q), "kinds": ["fresh", "stale", "empty", "large"], "max_assign": 27, "seed": 3, "left_rows": nrows})
+    evaluate(ctx, binpath, wide, "wide_prime_left_rows", threads, coq=True)
+    ctx.stream("wide_prime_left_rows", left_rows=[c["left_rows"] for c in wide], spec="python transliteration only (big cases)")
     known_seen = {}
     evaluate(ctx, binpath, cases, "random", threads, coq=True, known_seen=known_seen)
     ctx.stream("random", operator_counts=ops, known_plan_dependent_classes_hit=known_seen)
